@@ -23,8 +23,8 @@ def mut2(id, prop, edits, expect=None, props=None, note=''):
                   edits=[dict(file=f, old=o, new=n, nth=0) for f, o, n in edits]))
 
 
-def neu(id, props, edits, note=''):
-    C.append(dict(id=id, kind='neutral', properties=props, note=note,
+def neu(id, props, edits, note='', inconclusive_ok=None):
+    C.append(dict(id=id, kind='neutral', properties=props, note=note, **({'inconclusive_ok': inconclusive_ok} if inconclusive_ok else {}),
                   edits=[dict(file=f, old=o, new=n, nth=0, all=a) for f, o, n, a in edits]))
 
 
@@ -690,6 +690,20 @@ mut('C01-vmfmm-random-start-sum-over-the-frames-as-a-loop', 'C01', VM, INIT,
     "            total = np.zeros((*independent, num_classes))\n            for n in range(num_observations):\n                total += initialization[..., :, n]\n            initialization /= total[..., :, None]\n",
     expect=None, props=['C01', 'C09'], note='the loop sums over the observations: every class row is normalised, not every observation column')
 neu('N22-vmfmm-random-start-ufunc-reduce', ALLP, [(VM, INIT, "            initialization /= np.add.reduce(initialization, axis=-2, keepdims=True)\n", False)])
+# ---- eleventh pass (round-13 rules): correct twins of the seeded memory / speed rewrites
+SI = 'pb_bss/evaluation/module_si_sdr.py'
+SISDR = "    noise = estimation - projection\n\n    ratio = np.sum(projection ** 2, axis=-1) / np.sum(noise ** 2, axis=-1)\n    return 10 * np.log10(ratio)"
+BLOCKS = ("    T = reference.shape[-1]\n    block = min(max(T, 1), 1024)\n    noise = np.empty(reference.shape[:-1] + (block,))\n    noise_energy = np.zeros(reference.shape[:-1])\n"
+          "    for start in range(0, T, block):\n        stop = min(start + block, T)\n        buffer = noise[..., :stop - start]\n"
+          "        np.subtract(estimation[..., start:stop], projection[..., start:stop], out=buffer)\n        noise_energy += np.einsum('...t,...t->...', %s, %s)\n"
+          "    return 10 * np.log10(np.sum(projection ** 2, axis=-1) / noise_energy)")
+neu('N23-si-sdr-residual-energy-blockwise-reads-the-written-part', ALLP, [(SI, SISDR, BLOCKS % ('buffer', 'buffer'), False)], note='(C19 stops undecided: the residual energy is accumulated over blocks, the reductions of the defining formula are not found)', inconclusive_ok=['C19'])
+mut('C19-si-sdr-residual-energy-blockwise-reads-the-whole-buffer', 'C19', SI, SISDR, BLOCKS % ('noise', 'noise'), expect='partial-buffer-read', props=['C19'])
+MU = D + 'mixture_model_utils.py'
+neu('N23-mixture-weight-saliency-as-floating-array', ALLP, [(MU, "        masked_affiliation = affiliation * saliency[..., None, :]\n        weight = _unit_norm(",
+                                                            "        saliency = np.asarray(saliency, dtype=np.float64)\n        masked_affiliation = affiliation * saliency[..., None, :]\n        weight = _unit_norm(", False)])
+mut('C08-mixture-weight-saliency-cast-to-the-affiliation-dtype', 'C08', MU, "        masked_affiliation = affiliation * saliency[..., None, :]\n        weight = _unit_norm(",
+    "        saliency = np.asarray(saliency, dtype=affiliation.dtype)\n        masked_affiliation = affiliation * saliency[..., None, :]\n        weight = _unit_norm(", expect='cast-to-other-dtype', props=['C08'])
 # ---- whole refactorings written by independent sub-agents (14-20 behaviour-preserving edits each, verified bit-identical on
 #      600-900 inputs per patch): every check must stay silent on each of them
 for r, what in (('R1', 'mixture_model_utils / cacgmm / cACG'), ('R2', 'cwmm / cbmm / Watson / Bingham / distribution.utils'), ('R3', 'gmm / gaussian / vMF / gcacgmm / vmfcacgmm'),
@@ -741,7 +755,7 @@ for r, what in (('R101', 'mixture_model_utils / cacgmm / cACG'), ('R102', 'cwmm 
                 ('R104', 'beamformer / beamformer_wrapper / math.solve'), ('R105', 'permutation_alignment / initializers'), ('R106', 'mask_module / sxr_module / si_sdr / utils')):
     # checks that end INCONCLUSIVE (exit 2, no VIOLATION line): shapes / axis orders assembled with list methods at run time, computed index tuples, blockwise concatenation
     # (DESIGN 10.5, tenth campaign)
-    undecided = {'R101': ['C08', 'C14'], 'R102': ['C01', 'C09'], 'R103': ['C01', 'C02', 'C03', 'C04', 'C05', 'C07', 'C08', 'C09'], 'R104': ['C10', 'C12', 'C13'],
+    undecided = {'R101': ['C08', 'C09', 'C14'], 'R102': ['C01', 'C09'], 'R103': ['C01', 'C02', 'C03', 'C04', 'C05', 'C07', 'C08', 'C09'], 'R104': ['C10', 'C12', 'C13'],
                  'R106': ['C18', 'C19']}.get(r, [])
     C.append(dict(id=f'N20-{r}-axes', kind='neutral', properties=ALLP, note=f'independent rewrite of the axis handling of {what}', patch=f'neutral_patches/{r}.patch', edits=[],
                   inconclusive_ok=undecided))
@@ -751,7 +765,7 @@ for r, what in (('R111', 'mixture_model_utils / cacgmm / cACG'), ('R112', 'cwmm 
                 ('R114', 'beamformer / beamformer_wrapper / math.solve'), ('R115', 'permutation_alignment / initializers'), ('R116', 'mask_module / sxr_module / si_sdr / utils')):
     # checks that end INCONCLUSIVE (exit 2, no VIOLATION line): a value accumulated / assembled over blocks of an axis is not followed as a value (the term graph carries one
     # iteration), so the formula anchors inside such loops are undecided (DESIGN 10.5, eleventh campaign)
-    undecided = {'R111': ['C01', 'C02', 'C06', 'C08', 'C09'], 'R112': ['C03', 'C07', 'C08', 'C09'], 'R113': ['C02', 'C03', 'C07', 'C08', 'C09'], 'R114': ['C10', 'C11', 'C12', 'C13'],
+    undecided = {'R111': ['C01', 'C02', 'C06', 'C08', 'C09'], 'R112': ['C02', 'C03', 'C07', 'C08', 'C09'], 'R113': ['C02', 'C03', 'C07', 'C08', 'C09'], 'R114': ['C10', 'C11', 'C12', 'C13'],
                  'R115': ['C01', 'C09', 'C14', 'C15', 'C16'], 'R116': ['C18', 'C19']}.get(r, [])
     C.append(dict(id=f'N22-{r}-blocks', kind='neutral', properties=ALLP, note=f'independent block-wise / in-place rewrite of {what}', patch=f'neutral_patches/{r}.patch', edits=[],
                   inconclusive_ok=undecided))
